@@ -241,7 +241,33 @@ def check(s):
     # initial actor whatever the key
     from .C10 import check_sac_gates
     check_sac_gates(s, "C11.9")
-    for r_, n_ in (("C11.1", 250), ("C11.2", 20), ("C11.3", 50), ("C11.4", 250), ("C11.5", 4), ("C11.6", 50), ("C11.8", 1), ("C11.9", 6)):
+    # ---------------------------------------------------------------- C11.10 observer state keeps the platform's default widths: the statistics a
+    # callback carries through the step scan are combined with rewards, flags and counters of the default float / int width; a state
+    # initialised with a pinned width (jnp.float32 / int32) has another dtype than its own update as soon as 64-bit mode is on, and the
+    # scan / cond over it then fails to trace - attaching the observer makes training raise
+    import ast as _ast
+    PINNED = {"float16", "bfloat16", "float32", "float64", "int8", "int16", "int32", "int64", "uint8", "uint16", "uint32", "uint64"}
+    n10 = 0
+    for m in sorted(P.modules.values(), key=lambda m_: m_.name):
+        if not m.name.startswith("lerax.callback"):
+            continue
+        for ci in m.classes.values():
+            for mname, fn in ci.methods.items():
+                pinned = []
+                for c in _ast.walk(fn):
+                    if isinstance(c, _ast.Call):
+                        for kw in c.keywords:
+                            if kw.arg == "dtype" and ((isinstance(kw.value, _ast.Attribute) and kw.value.attr in PINNED) or (isinstance(kw.value, _ast.Constant) and kw.value.value in PINNED)):
+                                pinned.append(f"line {c.lineno}: dtype={_ast.unparse(kw.value)}")
+                        if isinstance(c.func, _ast.Attribute) and c.func.attr == "astype" and c.args and ((isinstance(c.args[0], _ast.Attribute) and c.args[0].attr in PINNED)
+                                                                                                      or (isinstance(c.args[0], _ast.Constant) and c.args[0].value in PINNED)):
+                            pinned.append(f"line {c.lineno}: astype({_ast.unparse(c.args[0])})")
+                n10 += 1
+                s.ob("C11.10", f"{ci.name}.{mname}", not pinned, "observer state is built and updated at the platform's default widths (dtype=float / int / bool), never at a pinned bit width",
+                     P.loc(m, fn), key="pinned-width", detail="; ".join(pinned), necessary_for="training is unaffected by observers in every configuration (an observer whose carried state changes dtype under 64-bit mode makes learn raise)")
+    if n10 == 0:
+        raise AnalysisError("C11.10: no callback method found")
+    for r_, n_ in (("C11.1", 250), ("C11.2", 20), ("C11.3", 50), ("C11.4", 250), ("C11.5", 4), ("C11.6", 50), ("C11.8", 1), ("C11.9", 6), ("C11.10", 30)):
         s.floor(r_, n_)
 
 
